@@ -124,6 +124,31 @@ Theorem C09_cap : forall v c s s' m, cfg_ok c -> reachable v c s ->
 Proof. exact cap_fires. Qed.
 Print Assumptions C09_cap.
 
+(* CAP, for Adds in no known order.  MaxPendingEvents = m.  Take ANY interleaving, of any
+   length, of Add calls with the run loop's own steps, starting with a window open, nothing in
+   flight and some Adds pending, and ending with every token handled.  If the Adds pending at
+   the start plus the Adds made reach m, a signal was spawned on the way - whatever the order in
+   which the Adds were counted and their tokens handled (in particular when the count jumps past
+   m before the first token is handled).  This is what the correspondence check's oracle
+   demands of every observed burst. *)
+Theorem C09_cap_burst : forall v c m, cap c = Some m -> 0 < m ->
+  forall es s s', has_timer s = true -> closed s = false -> tokens s = 0 -> run s <> R_input ->
+  forallb burst_ev es = true -> exec v c s es = Some s' ->
+  outstanding s' = 0 -> adds s < adds s' -> m <= pending s + (adds s' - adds s) ->
+  spawned s < spawned s'.
+Proof. exact cap_burst_signals. Qed.
+Print Assumptions C09_cap_burst.
+
+(* FIRST ADD IMMEDIATE, for Adds in no known order.  Take ANY interleaving of n >= 1 Add calls
+   with the run loop's own steps, starting idle (no window open, nothing pending or in flight)
+   and ending with every token handled: a signal was spawned, and the clock did not move. *)
+Theorem C09_first_immediate_burst : forall v c es s s',
+  has_timer s = false -> pending s = 0 -> closed s = false -> tokens s = 0 ->
+  run s <> R_input -> forallb burst_ev es = true -> exec v c s es = Some s' ->
+  outstanding s' = 0 -> adds s < adds s' -> spawned s < spawned s' /\ now s' = now s.
+Proof. exact idle_burst_signals. Qed.
+Print Assumptions C09_first_immediate_burst.
+
 (* CLOSE WAITS.  A Close call - the first one or a second one that overlaps it or follows it -
    returns only from a state with no token goroutine, no signal goroutine and the run loop gone
    (both variants) ... *)
@@ -194,6 +219,16 @@ Theorem C09_any_oracle_sound : forall fl tl rr cr leak,
   any_oracle fl tl rr cr leak = true <-> any_spec fl tl rr cr leak.
 Proof. exact any_oracle_sound. Qed.
 Print Assumptions C09_any_oracle_sound.
+
+Theorem C09_cap_burst_oracle_sound : forall c p n sigs,
+  cap_burst_oracle c p n sigs = true <-> cap_burst_spec c p n sigs.
+Proof. exact cap_burst_oracle_sound. Qed.
+Print Assumptions C09_cap_burst_oracle_sound.
+
+Theorem C09_idle_burst_oracle_sound : forall n sigs,
+  idle_burst_oracle n sigs = true <-> idle_burst_spec n sigs.
+Proof. exact idle_burst_oracle_sound. Qed.
+Print Assumptions C09_idle_burst_oracle_sound.
 
 Theorem C09_park_oracle_sound : forall held allc rr leak,
   park_oracle held allc rr leak = true <-> park_spec held allc rr leak.
